@@ -215,6 +215,7 @@ func c09Gen(seed []string, alpha []c08srvEv, maxDepth int, onDepth func(int), yi
 // Runner
 
 type c09Result struct {
+	trace            []string
 	applied, skipped int
 	dataFrames       int
 	blockedSeen      bool
@@ -247,6 +248,7 @@ func c09RunCase(w *vx.W, t testing.TB, cs c09cliCase) (res c09Result, harnessErr
 			case FrameGoAway:
 				// a GOAWAY from the client means it is tearing the connection down
 			}
+			res.trace = append(res.trace, f.String())
 			mon.frame(w, f, ctx)
 		}
 		if env.wireErr != "" {
@@ -432,6 +434,9 @@ func c09Check(c *vx.Ctx) func(w *vx.W, cs c09cliCase) {
 			res, herr = c09RunCase(w, t, cs)
 			return herr
 		})
+		c.AddStates(1)
+		c.AddTraces(1)
+		c.AddTransitions(int64(res.applied))
 		if res.dataFrames > 0 {
 			w.Nontrivial()
 		}
@@ -481,14 +486,18 @@ func TestVerif_C09(t *testing.T) {
 			{"negative-window", seedNeg, aSeed, vx.Pick(c, 3, 4)},
 			{"big-bodies", seedBig, aBig, vx.Pick(c, 3, 4)},
 		}
-		c.Rule("EV: for each seed prefix every event sequence of depth 1..D after the seed over {REQ (<=2 concurrent POSTs with harness-fed bodies), body bytes available (n), body EOF, server WINDOW_UPDATE(conn|stream, k), server SETTINGS INITIAL_WINDOW_SIZE / MAX_FRAME_SIZE, server RST_STREAM}, pruned by a predictive model and decided on the real state at run time; each sequence runs on a fresh real Transport ClientConn in its own synctest bubble; after every event: quiescence, drain all frames, RFC 7540 §6.9 window accounting on every DATA frame, frame length vs MAX_FRAME_SIZE, progress at quiescence, white-box cc.flow/cs.flow == monitor. non-trivial = the client emitted at least one DATA frame")
+		c.Rule("EV: for each seed prefix every event sequence of depth 1..D after the seed over {REQ (<=2 concurrent POSTs with harness-fed bodies), body bytes available (n), body EOF, server WINDOW_UPDATE(conn|stream, k), server SETTINGS INITIAL_WINDOW_SIZE / MAX_FRAME_SIZE, server RST_STREAM}, pruned by a predictive model and decided on the real state at run time; each sequence runs on a fresh real Transport ClientConn in its own synctest bubble; after every event: quiescence, drain all frames, RFC 7540 §6.9 window accounting on every DATA frame, frame length vs MAX_FRAME_SIZE, progress at quiescence, white-box cc.flow/cs.flow == monitor. non-trivial = the client emitted at least one DATA frame; states = explored event histories (stateless search), transitions = events applied to the real ClientConn and checked at quiescence, traces = histories executed to their end")
 		c.Assume("interleavings are explored at event granularity (L2)")
 		c.Assume("after a WINDOW_UPDATE/SETTINGS that would push a window above 2^31-1 that window is undefined and no longer checked (the reaction to the overflow itself is not part of C09)")
 		c.Assume("progress is checked only as: at quiescence no live stream has available request-body bytes off the wire while both its windows are positive (L4)")
+		c08Determinism(c, func(w *vx.W, t testing.TB) ([]string, string) {
+			res, herr := c09RunCase(w, t, c09cliCase{Evs: []string{"SETIW(3)", "REQ", "REQ", "BM(1,5)", "BM(3,20)", "WU(1,4)", "SETIW(10)", "BE(1)", "RST(3)"}})
+			return res.trace, herr
+		})
 		for _, p := range parts {
 			p := p
 			completed := 0
-			vx.Enumerate(c, p.name, vx.Opts{Serial: true},
+			vx.Enumerate(c, p.name, vx.Opts{Serial: true, Crumb: true},
 				func(yield func(c09cliCase) bool) {
 					c09Gen(p.seed, p.alpha, p.depth, func(d int) { completed = d }, yield)
 				},
